@@ -5,6 +5,14 @@ FIXED = [
      'exponential-cone constraints in an expectation set', 'exptset(exp(E(z)) <= e) was dropped: worst-case mean 10 instead of 1; findings/F12_exptset_expcone.py'),
     ('F07', ['C04', 'C13', 'C06'], 'R25', 'lp.DecAffine.sum', 'DecAffine(...): ctype not passed',
      'sum() and trace() of a dro expression', "E(y).sum().ctype was 'R': expectation constraint compiled as worst case; findings/F07_sum_drops_ctype.py"),
+    ('F19', ['C12'], 'R18', 'lp.Convex.__call__', 'branch T: value_out is added 2 times',
+     'evaluating a power atom adds', '(power(x,3)+5)() returned x**3+10; findings/F19_F20_evaluators.py'),
+    ('F20', ['C12'], 'R18', 'lp.Convex.__call__', 'branch P: leading sign is +1 but the atom is created with sign -1',
+     'evaluating a power atom adds', 'entropy(p)() returned minus the entropy (ro and dro evaluators); findings/F19_F20_evaluators.py'),
+    ('F21', ['C10'], 'R11', 'lp.DecAffine.__le__', 'DecAffine.__le__',
+     'dro comparisons with the affine operand first', 'dro: x <= maxof(y0, y1) accepted and compiled as x <= min(y0, y1); findings/F21_dro_piecewise_wrong_side.py'),
+    ('F26', ['C10'], 'R11', 'lp.PiecewiseConvex.__le__', 'PiecewiseConvex.__le__',
+     'piecewise expression scaled by zero', '0*maxof(x, y) <= -1 compiled as 0 <= 0 (sign 0 swallowed added terms); findings/F26_zero_scaled_piecewise.py'),
 ]
 KNOWN = [
     ('F13', ['C04', 'C03'], 'R07', 'dro.Ambiguity.mix_support', 'exp_support.lmi ignored',
